@@ -136,6 +136,9 @@ pub enum FiberSt {
     Suspended,
     Running,
     Done,
+    /// was calling another fiber when the run was aborted by an uncaught error further down the
+    /// chain: yarel leaves such a fiber with its frames and caller link; nothing defines its state
+    Limbo,
 }
 pub struct FiberObj {
     pub closure: Rc<Closure>,
